@@ -510,6 +510,7 @@ type Case interface {
 	rcase() reflect.SelectCase
 	complete(s *Sim, t *task, site string, rv reflect.Value, ok bool)
 	priv() any
+	recvChan() unsafe.Pointer // nil for a send case
 }
 
 type recvCase[T any] struct {
@@ -571,6 +572,8 @@ func (rc *recvCase[T]) complete(s *Sim, t *task, site string, rv reflect.Value, 
 
 func (rc *recvCase[T]) priv() any { return rc.p }
 
+func (rc *recvCase[T]) recvChan() unsafe.Pointer { return recvPtr(rc.c) }
+
 func (sc *sendCase[T]) try(s *Sim, t *task, site string) bool {
 	if !sc.described {
 		sc.d = describeRec(any(sc.v))
@@ -598,6 +601,8 @@ func (sc *sendCase[T]) complete(s *Sim, t *task, site string, _ reflect.Value, _
 }
 
 func (sc *sendCase[T]) priv() any { return sc.p }
+
+func (sc *sendCase[T]) recvChan() unsafe.Pointer { return nil }
 
 // Sel is the outcome of a simulated select: which clause won (-1: default).
 type Sel struct {
@@ -639,6 +644,14 @@ func Select(site string, hasDefault bool, cases ...Case) *Sel {
 
 		cases[i].complete(s, t, site, rv, ok)
 		m.won = i
+	}
+
+	if m.won < 0 && s.cfg.RecordEmptyPolls && t.lib {
+		for _, c := range cases {
+			if p := c.recvChan(); p != nil {
+				s.recordOp(KSelDefault, site, p, nil, true, t)
+			}
+		}
 	}
 
 	s.selTaken(site, m.won, t)
